@@ -7,22 +7,24 @@ import (
 
 // ---- constructors -------------------------------------------------------------------------
 
-func Sc(t, name string) *Field         { return &Field{Kind: Scalar, Type: t, Name: name} }
+func Sc(t, name string) *Field { return &Field{Kind: Scalar, Type: t, Name: name} }
 func Fx(n int, name string, pad *Pad) *Field {
 	return &Field{Kind: FixStr, Type: "char", N: n, Name: name, Pad: pad}
 }
-func Zc(n int, name string) *Field     { return &Field{Kind: FixStr, Type: "zchar", N: n, Name: name} }
-func Ds(name string) *Field            { return &Field{Kind: DynStr, Type: "string", Name: name} }
-func Ds2(name string) *Field           { return &Field{Kind: DynStr, Type: "char[]", Name: name} }
-func Ob(ref, name string) *Field       { return &Field{Kind: Obj, Ref: ref, Name: name} }
-func Mr(ref, name string) *Field       { return &Field{Kind: MetaRef, Ref: ref, Name: name} }
+func Zc(n int, name string) *Field { return &Field{Kind: FixStr, Type: "zchar", N: n, Name: name} }
+func Ds(name string) *Field        { return &Field{Kind: DynStr, Type: "string", Name: name} }
+func Ds2(name string) *Field       { return &Field{Kind: DynStr, Type: "char[]", Name: name} }
+func Ob(ref, name string) *Field   { return &Field{Kind: Obj, Ref: ref, Name: name} }
+func Mr(ref, name string) *Field   { return &Field{Kind: MetaRef, Ref: ref, Name: name} }
 func In(name string, sub ...*Field) *Field {
 	return &Field{Kind: Inline, Ref: name, Sub: sub}
 }
 func Mt(key, name string, pairs ...Pair) *Field {
 	return &Field{Kind: Match, Key: key, Name: name, Pairs: pairs}
 }
-func Lo(t, name, target string) *Field { return &Field{Kind: LenOf, Type: t, Name: name, Target: target} }
+func Lo(t, name, target string) *Field {
+	return &Field{Kind: LenOf, Type: t, Name: name, Target: target}
+}
 func Ck(t, name, algo string) *Field {
 	return &Field{Kind: Checksum, Type: t, Name: name, Algo: `"` + algo + `"`}
 }
